@@ -56,6 +56,11 @@ void h_inc_aggregate(void) {
         FOR_IDX(k, t) verif_c17_wexp = o < 32 ? (k < nb ? aggsig[32 * k + o] : sigs[64 * (k - nb) + o]) : o < 64 ? pks[k].data[31 - (o - 32)] : msgs[32 * k + (o - 64)]; }
     len = alen;
 
+#ifdef C17_EARLY
+    /* EARLY-EXIT variant: only calls the specification rejects before the first loop (misuse, count overflow, buffer too small), counts and
+     * lengths unbounded; a call that nevertheless enters a loop trips the unwinding assertion */
+    __CPROVER_assume(!use_agg || !use_len || (!use_sigs && nnew != 0) || wrap || (!use_pk && n != 0) || (!use_msgs && n != 0) || toosmall);
+#endif
     if (oneshot) ret = secp256k1_schnorrsig_aggregate(&ctx, use_agg ? aggsig : NULL, use_len ? &len : NULL, use_pk ? pks : NULL, use_msgs ? msgs : NULL, use_sigs ? sigs : NULL, nnew);
     else ret = secp256k1_schnorrsig_inc_aggregate(&ctx, use_agg ? aggsig : NULL, use_len ? &len : NULL, use_pk ? pks : NULL, use_msgs ? msgs : NULL, use_sigs ? sigs : NULL, nb, nnew);
 #ifndef C17_NBOUND
